@@ -1,7 +1,7 @@
 #!/usr/bin/env python3
 """one-off helper: copies the second-round seeded changes from /tmp/mut2 into seeded/"""
 import json, os, shutil, sys
-root = "/tmp/mut2"
+root = os.environ.get("MUTROOT", "/tmp/mut2")
 for p in sorted(os.listdir(root)):
     if not (p.startswith("C") and os.path.isdir(os.path.join(root, p, "out"))):
         continue
@@ -23,7 +23,7 @@ for p in sorted(os.listdir(root)):
             meta = json.load(open(os.path.join(out, "meta%s.json" % suf)))
         except Exception as e:
             meta = {"summary": "(meta unreadable: %s)" % e}
-        meta.update({"property": p, "name": name, "round": 2, "base_commit": "cf3ce4f",
-                     "confirmed_by_me": "MUTROOT=/tmp/mut2 tools/verify_mutant.sh %s %s (scratch worktree): whole test suite passes with the change, demo passes without it and fails with it" % (p, suf)})
+        meta.update({"property": p, "name": name, "round": int(os.environ.get("MUTROUND", "2")), "base_commit": os.environ.get("MUTBASE", "cf3ce4f"),
+                     "confirmed_by_me": "MUTROOT=%s tools/verify_mutant.sh %s %s (scratch worktree): whole test suite passes with the change, demo passes without it and fails with it" % (root, p, suf)})
         json.dump(meta, open(os.path.join(dst, "meta.json"), "w"), indent=1)
         print(name)
